@@ -89,6 +89,13 @@ def _systematic(kind):
             steps.append(['adv', 10])
           steps += [['adv', 50], ['probe'], ['adv', 700], ['probe'], ['adv', 100]]
           out.append({'kind': kind, 'fault_at': {'0': {str(opn): fk}}, 'steps': steps, 'plans': [['ok', 0]], 'rseed': opn, 'chunk': chunk})
+  if kind == 'mux':
+    # many requests in flight (around 64 / 128) when the connection is lost
+    for nreq in (63, 64, 65, 130):
+      for fk in ('eof', 'err'):
+        steps = [['open'], ['adv', 20]] + [['req', r + 1, 0] for r in range(nreq)] + \
+                [['adv', 10], ['reply', 0], ['adv', 10], ['fault', fk], ['adv', 100], ['probe'], ['adv', 100]]
+        out.append({'kind': kind, 'fault_at': {}, 'steps': steps, 'plans': [['ok', 0]], 'rseed': nreq})
   if kind == 'thrift':
     # transport-level timeout, then the re-connect is slow / refused / hangs, with traffic in the window
     for plan1 in (['ok', 0], ['ok', 30], ['ok', 200], ['refuse', 0], ['refuse', 30], ['hang']):
@@ -237,6 +244,14 @@ def cases(prop, tier, seed):
           steps += [['adv', 10], ['frame', typ, 2 + which], ['adv', 10], ['req', 2 * ntag + 1, 0], ['req', 2 * ntag + 2, 0], ['adv', 400]]
           steps += [['reply', 0]] * (ntag + 2) + [['adv', 50]]
           out.append({'kind': 'mux', 'fault_at': {}, 'plans': [['ok', 0]], 'steps': steps, 'rseed': ntag})
+    # replies read in small pieces with 100+ requests outstanding (a frame mis-assembled from its pieces names
+    # some other tag: with many tags in use that tag is likely to be one of them)
+    for chunk in (5, 8, 11):
+      for nreq in (127, 130):
+        steps = [['open'], ['adv', 20]] + [['req', r + 1, 0] for r in range(nreq)] + \
+                [['adv', 10], ['reply', 0], ['adv', 10], ['reply', 3], ['adv', 10], ['req', nreq + 1, 0], ['req', nreq + 2, 0], ['adv', 10]] + \
+                [['reply', 0]] * 6 + [['adv', 100]]
+        out.append({'kind': 'mux', 'fault_at': {}, 'plans': [['ok', 0]], 'steps': steps, 'rseed': nreq, 'chunk': chunk})
     # a long-lived connection whose tag counter is near a boundary of the 24-bit tag space (or of a narrower
     # field): requests in flight below the boundary, then the counter is fast-forwarded, then more requests
     for k in (254, 255, 32766, 65533, 65534, 65535, 8388606, 16777210, 16777211, 16777212):
